@@ -30,7 +30,7 @@ STRUCT_TAIL = {
     "ok", "unwrap_or_default", "by_ref", "split_at", "chunks", "chunks_exact", "to_vec", "into", "from", "map_err",
     "as_chunks", "peekable", "filter", "step_by", "drain", "remove", "swap_remove", "take_while", "skip_while", "nth",
     "unzip", "collect", "map", "to_owned", "from_residual", "poll", "into_future", "new_unchecked", "get_context", "try_join_all",
-    "try_join", "from_iter", "lock", "into_iter_sorted", "lift",
+    "try_join", "from_iter", "lock", "into_iter_sorted", "lift", "get_or_insert", "get_or_insert_with", "new",
 }
 STRUCT_KINDS = {"copy", "ref", "base2field", "field2whole", "upvar", "callarg", "ret", "closarg", "closret", "future", "cast", "agg", "index"}
 
